@@ -294,7 +294,55 @@ func init() {
 		if err != nil {
 			panic(fmt.Sprintf("C11: %v", err))
 		}
-		var optionWrites []string
+		// writeForms: like writes, but telling a store THROUGH the field (`cfg.f[k] = v`, delete(cfg.f, k):
+		// "f[]") from an assignment OF the field (`cfg.f = x`: "f=")
+		writeForms := func(fd *ast.FuncDecl, recv string) []string {
+			set := map[string]bool{}
+			field := func(x ast.Expr, whole bool) {
+				for {
+					switch y := x.(type) {
+					case *ast.IndexExpr:
+						x, whole = y.X, false
+						continue
+					case *ast.ParenExpr:
+						x = y.X
+						continue
+					}
+					break
+				}
+				if se, ok := x.(*ast.SelectorExpr); ok {
+					if id, ok := se.X.(*ast.Ident); ok && id.Name == recv {
+						if whole {
+							set[se.Sel.Name+"="] = true
+						} else {
+							set[se.Sel.Name+"[]"] = true
+						}
+					}
+				}
+			}
+			ast.Inspect(fd.Body, func(n ast.Node) bool {
+				switch x := n.(type) {
+				case *ast.AssignStmt:
+					for _, l := range x.Lhs {
+						field(l, true)
+					}
+				case *ast.IncDecStmt:
+					field(x.X, true)
+				case *ast.CallExpr:
+					if id, ok := x.Fun.(*ast.Ident); ok && (id.Name == "delete" || id.Name == "clear") && len(x.Args) > 0 {
+						field(x.Args[0], false)
+					}
+				}
+				return true
+			})
+			var out []string
+			for k := range set {
+				out = append(out, k)
+			}
+			sort.Strings(out)
+			return out
+		}
+		var optionWrites, optionWriteForms []string
 		for _, d := range of.Decls {
 			fd, ok := d.(*ast.FuncDecl)
 			if !ok || fd.Body == nil || fd.Recv != nil {
@@ -303,9 +351,63 @@ func init() {
 			switch fd.Name.Name {
 			case "WithGlobal", "WithGlobals", "WithoutGlobal", "WithoutGlobals", "WithGlobalOverride", "WithoutDefaultGlobals":
 				optionWrites = append(optionWrites, fd.Name.Name+":"+strings.Join(writes(fd, "cfg"), "+"))
+				optionWriteForms = append(optionWriteForms, fd.Name.Name+":"+strings.Join(writeForms(fd, "cfg"), "+"))
 			}
 		}
 		sort.Strings(optionWrites)
+		sort.Strings(optionWriteForms)
+		// every place of the root package where a Config's map fields are set AS A WHOLE
+		mapFields := map[string]bool{"globals": true, "overrides": true, "denylist": true}
+		rhsKind := func(e ast.Expr) string {
+			switch x := e.(type) {
+			case *ast.CompositeLit:
+				if _, ok := x.Type.(*ast.MapType); ok && len(x.Elts) == 0 {
+					return "fresh"
+				}
+			case *ast.CallExpr:
+				if id, ok := x.Fun.(*ast.Ident); ok && id.Name == "make" && len(x.Args) > 0 {
+					if _, ok := x.Args[0].(*ast.MapType); ok {
+						return "fresh"
+					}
+				}
+			}
+			return "other"
+		}
+		var configMapAssigns []string
+		for _, f := range c11ParseDir(fset, repo) {
+			for _, d := range f.Decls {
+				fd, ok := d.(*ast.FuncDecl)
+				if !ok || fd.Body == nil {
+					continue
+				}
+				ast.Inspect(fd.Body, func(n ast.Node) bool {
+					switch x := n.(type) {
+					case *ast.AssignStmt:
+						for i, l := range x.Lhs {
+							if se, ok := l.(*ast.SelectorExpr); ok && mapFields[se.Sel.Name] {
+								k := "other"
+								if len(x.Rhs) == len(x.Lhs) {
+									k = rhsKind(x.Rhs[i])
+								}
+								configMapAssigns = append(configMapAssigns, fd.Name.Name+":"+se.Sel.Name+"="+k)
+							}
+						}
+					case *ast.CompositeLit:
+						if id, ok := x.Type.(*ast.Ident); ok && id.Name == "Config" {
+							for _, el := range x.Elts {
+								if kv, ok := el.(*ast.KeyValueExpr); ok {
+									if kid, ok := kv.Key.(*ast.Ident); ok && mapFields[kid.Name] {
+										configMapAssigns = append(configMapAssigns, fd.Name.Name+":"+kid.Name+"="+rhsKind(kv.Value))
+									}
+								}
+							}
+						}
+					}
+					return true
+				})
+			}
+		}
+		sort.Strings(configMapAssigns)
 		var vmWithGlobalsWrites []string
 		vo, err := parser.ParseFile(fset, filepath.Join(repo, "vm", "options.go"), nil, 0)
 		if err != nil {
@@ -368,6 +470,8 @@ func init() {
 		s += "/-- methods Config.init calls on its receiver, in source order -/\ndef initOrder : List String := " + c11StrList(initOrder) + "\n\n"
 		s += "/-- resolveModule's loop calls GetAttr on its first parameter (the root module) -/\ndef resolveLooksUpInRoot : Bool := " + strconv.FormatBool(resolveInRoot) + "\n\n"
 		s += "/-- per option constructor of risor_options.go: the Config fields its body writes (assignment, delete) -/\ndef optionWrites : List String := " + c11StrList(optionWrites) + "\n\n"
+		s += "/-- per option constructor: HOW it writes each Config field — `f[]` a store through the field (cfg.f[k] = v, delete), `f=` an assignment of the field itself -/\ndef optionWriteForms : List String := " + c11StrList(optionWriteForms) + "\n\n"
+		s += "/-- every assignment OF a Config map field (globals, overrides, denylist) in the root package, as func:field=fresh|other (fresh = an empty map literal or make) -/\ndef configMapAssigns : List String := " + c11StrList(configMapAssigns) + "\n\n"
 		s += "/-- the VirtualMachine fields vm.WithGlobals writes -/\ndef vmWithGlobalsWrites : List String := " + c11StrList(vmWithGlobalsWrites) + "\n\n"
 		s += "/-- applyOptions converts ALL of inputGlobals into vm.globals unconditionally on every call -/\ndef vmConvertsAlways : Bool := " + strconv.FormatBool(convertsAlways) + "\n\n"
 		s += "/-- resetForNewCode assigns vm.modules -/\ndef vmResetClearsModules : Bool := " + strconv.FormatBool(resetClearsModules) + "\n\n"
